@@ -18,6 +18,7 @@ const (
 	cutEOF = iota
 	cutReset
 	cutMidFrame
+	cutHalfClose // the client has stopped reading (the server's writer is blocked), then ends only its own sending direction
 	nCutModes
 )
 
@@ -38,6 +39,10 @@ func c11Gen(seed uint64, run int, tier string) *Case {
 		c.Cfg["cutwhen"] = 0
 		c.Cfg["nfiles"] = int64(r.Range(1, 8))
 		return c
+	}
+	if run%4 == 1 {
+		c.Cfg["flushop"] = 1
+		c.Stratum += "+cancelled-requests"
 	}
 	maxHeld := 4
 	maxData := effMsize(c) - IOHDRSZ
@@ -61,6 +66,12 @@ func c11Gen(seed uint64, run int, tier string) *Case {
 			cnt := r.Pick(0, 1, 13, 100, maxData)
 			if ti == wtWalk {
 				cnt = r.Intn(4)
+			}
+			if ci == 0 && c.Cfg["flushop"] != 0 && (mode == PHold || mode == PAsync) && r.Pct(60) {
+				// cancelled through the implementation's FlushOp while it is parked, before the connection goes
+				c.Ops = append(c.Ops, reqOp(ci, ti, i, mode, r.Pct(15), cnt, r.Pct(40), 1))
+				c.Ops = append(c.Ops, flushOp(ci, 300+i, i, fpWhenHeld, r.Pct(50)))
+				continue
 			}
 			c.Ops = append(c.Ops, reqOp(ci, ti, i, mode, r.Pct(15), cnt, r.Pct(40), 0))
 		}
@@ -201,7 +212,7 @@ func c11Exec(x *Ctx) {
 		c11Ufs(x)
 		return
 	}
-	w := NewSrvWork(x, false)
+	w := NewSrvWork(x, x.C.cfg("flushop") != 0)
 	victim := w.sys.Conns[0]
 	cutDone := false
 	cutStep := -1
@@ -219,6 +230,9 @@ func c11Exec(x *Ctx) {
 		case cutReset:
 			x.Fault("cut-reset")
 			victim.Clnt.Reset()
+		case cutHalfClose:
+			x.Fault("cut-half-close")
+			victim.Clnt.CloseWrite()
 		case cutMidFrame:
 			x.Fault("cut-midframe")
 			b := Encode(&Msg{Type: Tstat, Tag: 4000, Fid: 0}, victim.Peer.Dotu)
@@ -228,6 +242,16 @@ func c11Exec(x *Ctx) {
 		if len(w.fs.HeldInvs()) > 0 {
 			x.Probe("cut-with-requests-parked")
 		}
+	}
+	if int(x.C.cfg("cutmode")) == cutHalfClose {
+		// from the end of the set-up on the victim takes no replies, over a transport that holds 24 bytes
+		victim.Srv.Out.Cap = 24
+		rt.Go(rt.SiteSpawn, func() {
+			rt.SetName("staller")
+			rt.YieldUntil(rt.SiteActor, func() bool { return w.setupOK[0] })
+			victim.Peer.StopReading = true
+			x.Fault("stall")
+		})
 	}
 	when := int(x.C.cfg("cutwhen"))
 	if when == 0 {
